@@ -418,7 +418,7 @@ function genPlain(rng, ctx, depth) {
 export function genNode(rng, ctx, depth, prevText) {
   const r = rng.int(100)
   if (r < 22 && !prevText) return { t: 'text', v: genTextValue(rng, ctx) }
-  if (r < 25) return { t: 'comment', s: rng.pick([' c ', '', 'x', ' <a> ', '{{a}}']) }
+  if (r < 25) return { t: 'comment', s: rng.pick([' c ', '', 'x', ' <a> ', '{{a}}', ' note\n 😀 ', '漢\n字😀😀', '\r\n😀', '😀']) }
   if (r < 40 && depth > 0) {
     // if-chain
     const nb = rng.range(1, 3)
